@@ -1112,10 +1112,19 @@ package kcp
 //@ pred fromUDPSource(src *net_UDPAddr, addr any) = src != nil ==> typeis(addr, ptr_net_UDPAddr) && unboxptr(addr, net_UDPAddr) != nil
 //@        && unboxptr(addr, net_UDPAddr).Port == src.Port && unboxptr(addr, net_UDPAddr).Zone == src.Zone && ipeq(src.IP, unboxptr(addr, net_UDPAddr).IP)
 //@ pred fromSource(src *net_UDPAddr, srcStr string, addr any) = fromUDPSource(src, addr) && (src == nil ==> addrstr(addr) == srcStr)
+// the same, stated from the session's own (immutable) remote address instead of the loop's locals:
+// a session that was given a usable peer address admits only datagrams from it
+//@ pred fromRemote(remote any, addr any) = typeis(remote, ptr_net_UDPAddr)
+//@        ? (unboxptr(remote, net_UDPAddr) != nil ==> fromUDPSource(unboxptr(remote, net_UDPAddr), addr))
+//@        : (remote != nil && addrstr(remote) != emptystr() ==> addrstr(addr) == addrstr(remote))
+//@ pred (s *UDPSession) srcBound(src *net_UDPAddr, srcStr string) = (typeis(s.remote, ptr_net_UDPAddr) && unboxptr(s.remote, net_UDPAddr) != nil ==> src == unboxptr(s.remote, net_UDPAddr))
+//@        && (s.remote != nil && !typeis(s.remote, ptr_net_UDPAddr) && addrstr(s.remote) != emptystr() ==> src == nil && srcStr == addrstr(s.remote))
 //@ func UDPSession.defaultReadLoop
 //@   requires s.imm()
 //@   modifies everything
 //@   callsite UDPSession.packetInput requires @C11 [admitted-datagram-matches-the-session-source] fromSource(src, srcStr, addr)
+//@   callsite UDPSession.packetInput requires @C11 [a-session-with-a-peer-address-admits-only-datagrams-from-it] fromRemote(s.remote, addr)
+//@   loop 1 invariant @C11 s.srcBound(src, srcStr)
 //@   loop 1 invariant s.imm() && DefaultSnmp != nil
 // golang.org/x/net's batch read (trusted): every returned message carries a real source address
 //@ func batchConn.ReadBatch trusted
@@ -1128,6 +1137,9 @@ package kcp
 // (the batch loop hands its message array to packetInput, whose frame is `everything`: the facts
 // about later messages of the batch are lost, so only the UDP-address case is claimed here)
 //@   callsite UDPSession.packetInput requires @C11 [admitted-datagram-matches-the-session-source] fromUDPSource(src, msg.Addr)
+//@   callsite UDPSession.packetInput requires @C11 [a-session-with-a-udp-peer-address-admits-only-datagrams-from-it] typeis(s.remote, ptr_net_UDPAddr) ==> fromRemote(s.remote, msg.Addr)
+//@   loop 2 invariant @C11 typeis(s.remote, ptr_net_UDPAddr) && unboxptr(s.remote, net_UDPAddr) != nil ==> src == unboxptr(s.remote, net_UDPAddr)
+//@   loop 3 invariant @C11 typeis(s.remote, ptr_net_UDPAddr) && unboxptr(s.remote, net_UDPAddr) != nil ==> src == unboxptr(s.remote, net_UDPAddr)
 //@   loop 1 invariant s.imm() && DefaultSnmp != nil
 //@   loop 2 invariant s.imm() && DefaultSnmp != nil
 //@   loop 3 invariant s.imm() && DefaultSnmp != nil
